@@ -560,6 +560,9 @@ func dgram(sid, pid uint64, body []byte) []byte {
 	return append(b, body...)
 }
 
+// extremeIDs are packet / session ids at the edges of the 64-bit space and of the sliding window's block arithmetic.
+var extremeIDs = []uint64{0, 1, 63, 64, 255, 256, 257, 1 << 16, 1<<32 - 1, 1 << 32, 1<<32 + 1, 1 << 48, 1 << 56, 1 << 62, 1<<62 + 1, 1<<63 - 1, 1 << 63, 1<<63 + 1, 1<<64 - 2, 1<<64 - 1}
+
 func ssUDPServerSeeds() (sels []uint8, seeds [][]byte) {
 	add := func(sel uint8, b []byte) { sels = append(sels, sel); seeds = append(seeds, b) }
 	targets := []conn.Addr{
@@ -598,6 +601,15 @@ func ssUDPServerSeeds() (sels []uint8, seeds [][]byte) {
 		for _, ta := range targets {
 			add(cfg|ssFixTS, cat(dgram(7, 0, ssUDPBody(ta, 0, []byte("q"))), dgram(7, 1, ssUDPBody(ta, 900, []byte("q"))), dgram(7, 1, ssUDPBody(ta, 0, nil))))
 			add(cfg|ssFixTS, cat(dgram(1, 1<<63, ssUDPBody(ta, 3, []byte("q"))), dgram(2, 0, ssUDPBody(ta, 3, []byte("q"))), dgram(1, 0, ssUDPBody(ta, 3, []byte("q")))))
+		}
+		// extreme packet ids and session ids behind authentication: single packets and jumps of +-2^k within a session
+		body := ssUDPBody(targets[0], 0, []byte("q"))
+		for _, id := range extremeIDs {
+			add(cfg|ssFixTS, dgram(7, id, body))
+			add(cfg|ssFixTS, dgram(id, 3, body))
+			add(cfg|ssFixTS, cat(dgram(7, 5, body), dgram(7, id, body), dgram(7, 6, body)))
+			add(cfg|ssFixTS, cat(dgram(7, id, body), dgram(7, id+1, body), dgram(7, id-1, body)))
+			add(cfg|ssFixTS, cat(dgram(7, 1<<40, body), dgram(7, 1<<40+id, body), dgram(7, 1<<40-id, body)))
 		}
 		for _, a := range hostileAddrs()[:60] {
 			add(cfg|ssFixTS, dgram(9, 0, cat(make([]byte, 9), []byte{0, 0}, a, []byte("x"))))
@@ -818,15 +830,17 @@ func relayInPlace(t failer, rec *ev.Recorder, desc func() string, buf []byte, ta
 		name string
 		p    zerocopy.ClientPacker
 	}{{"none", relayNone}, {"socks5", relaySocks5}, {"ss2022", relaySS[0]}, {"ss2022eih", relaySS[1]}}
-	for _, pk := range packers {
-		guard(t, rec, "relay-inplace-"+pk.name, desc, func() {
+	cur := ""
+	guard(t, rec, "relay-inplace", func() string { return desc() + " packer=" + cur }, func() {
+		for _, pk := range packers {
+			cur = pk.name
 			b := append([]byte(nil), buf...)
 			_, s, l, err := pk.p.PackInPlace(context.Background(), b, ta, ps, pl)
 			if err == nil && (s < 0 || l < 0 || s+l > len(b)) {
 				t.Fatalf("SIG=C06/relay-bounds VERIF-VIOLATION packer=%s start=%d len=%d buf=%d: %s", pk.name, s, l, len(b), desc())
 			}
-		})
-	}
+		}
+	})
 }
 
 // ---------------------------------------------------------------- UDP client
@@ -850,6 +864,13 @@ func ssUDPClientSeeds() (sels []uint8, seeds [][]byte) {
 		for _, s := range srcs {
 			add(cfg|ssFixTS|ssFixLen, cat(dgram(5, 0, ssUDPServerBody(0, s, 0, []byte("r"))), dgram(5, 1, ssUDPServerBody(0, s, 900, []byte("r"))), dgram(5, 1, ssUDPServerBody(0, s, 0, nil))))
 			add(cfg|ssFixTS|ssFixLen, cat(dgram(5, 0, ssUDPServerBody(0, s, 0, []byte("r"))), dgram(6, 0, ssUDPServerBody(0, s, 1, []byte("r"))), dgram(5, 9, ssUDPServerBody(0, s, 0, nil)), dgram(7, 0, ssUDPServerBody(0, s, 0, nil))))
+		}
+		sbody := ssUDPServerBody(0, srcs[0], 0, []byte("r"))
+		for _, id := range extremeIDs {
+			add(cfg|ssFixTS|ssFixLen, dgram(5, id, sbody))
+			add(cfg|ssFixTS|ssFixLen, dgram(id, 3, sbody))
+			add(cfg|ssFixTS|ssFixLen, cat(dgram(5, 5, sbody), dgram(5, id, sbody), dgram(5, 6, sbody), dgram(5, id+1, sbody)))
+			add(cfg|ssFixTS|ssFixLen, cat(dgram(5, 1<<40, sbody), dgram(5, 1<<40+id, sbody), dgram(5, 1<<40-id, sbody)))
 		}
 		for _, a := range hostileAddrs()[:60] {
 			add(cfg|ssFixTS|ssFixLen, dgram(5, 0, cat(make([]byte, 17), []byte{0, 0}, a, []byte("x"))))
